@@ -42,6 +42,11 @@ CLAIMED = {
    "Journals are rendered from a model (two default transactions; ~190 single deviations in ~45 parameter groups covering every terminal shape and layout parameter of G: dates, secondary date, status, code, description/payee/note shapes incl. ALLCAPS, leading digits, colons, currency signs, non-BMP, header and posting comments with tags, posting count/indent/status/kind, account shapes, separators incl. tab, 10 commodity forms, sign placements, 15 number spellings, costs, assertions, every directive kind before/between/after, CRLF, missing final newline, 0/2 blank lines). Every journal with <= 2 deviations, and <= 3 over header/amount/line-end parameters (quick) or <= 3 over the whole catalogue (thorough), plus every ordered pair of entry kinds adjacent with 0 and 1 blank lines, is parsed by the real parser: no syntax error, and every semantic field (dates, status, code, description/payee/note, comments, tags, accounts, kinds, exact quantities as rationals, commodities and side, costs, assertions, directive payloads, counts) equals the model; published code-less diagnostics equal the parse errors.",
    "The model/renderer is the ground truth (text is rendered from it, nothing is parsed by the oracle). A journal whose deviation set contains an already failing proper subset is charged to that subset. hledger syntax outside G (periodic/auto postings, aliases, apply account, lot prices, one-mark-three-digit numbers) is not covered.",
    "DESIGN.md §4.2, Appendix A, §5 C03"),
+ "C02": ("exploration",
+   "bounded-exhaustive enumeration of single-transaction documents against exact rational reference arithmetic, plus a metamorphic notation check",
+   "Every transaction with 0..3 postings (4 thorough) over kinds ordinary/(virtual)/[balanced] x amount present or not x commodity assignment over {$ left, EUR right, quoted \"x y\"} x per-commodity residual targets {0, 1, 0.5, 0.000001, -1234567.25} (the last cost-free posting of each commodity group is solved for the target) x no cost or one unit/total cost in another commodity with quantity in {2, 0.5, 1.25} is opened through the wire seam; the published MULTIPLE_INFERRED / UNBALANCED codes and the residuals parsed back from the message must equal math/big.Rat sums over ordinary and bracketed postings. For every transaction of <= 3 postings each amount is respelled (decimal comma, trailing zeros and mark, comma/point/space groups, exponent, sign before commodity, commodity on the other side, wide and tab separators) and the verdict must not change.",
+   "Transactions on which hledger's rule and the exact-sum rule disagree (implicit two-commodity price, residual below written precision) are dropped and counted, as the property demands. Quantities outside the value alphabet and >4 postings are not covered.",
+   "DESIGN.md §4.3, §5 C02"),
 }
 
 NOT_YET = "check not built yet in this session (work in progress; see DESIGN.md §5 for the plan)"
